@@ -15,9 +15,9 @@ CHECKS = {
 }
 
 CHECKS["C19"] = dict(
-   category="model_checking", engine="A explicit-state over the real maps (+ C controlled scheduler for the concurrent clause)",
+   category="model_checking", engine="A explicit-state over the real maps + C controlled scheduler for the concurrent clause",
    technique="explicit-state BFS to a fixpoint of canonical heap states of the real generated maps, reference insertion-ordered map as oracle",
-   text="Breadth-first search over ALL operation sequences of the 19-operation alphabet (3 keys, 2 values, 4 predicates, failing Map callback) on the real ASTNodes, RuleASTNodes (zero value, New..., Make...) and Constraints objects until no new canonical state (order backing array incl. stale tail, len, data) appears; this covers histories of any length, not only 6. Every observer and every callback visit log is compared with a 30-line reference map in every state; merges are validated by recomputing successors.",
+   text="Breadth-first search over ALL operation sequences of the 19-operation alphabet (3 keys, 2 values, 4 predicates, failing Map callback) on the real ASTNodes, RuleASTNodes (zero value, New..., Make...) and Constraints objects until no new canonical state (order backing array incl. stale tail, len, data) appears; this covers histories of any length, not only 6. Every observer and every callback visit log is compared with a 30-line reference map in every state; merges are validated by recomputing successors. Concurrent clause (merged from the scheduler variant): all 4-tuples (2 threads x 2 ops) and triples (3 x 1) over a 9-operation alphabet on the three real maps from two initial states, ALL interleavings at lock points, each history checked for linearizability by brute force and by the race detector as per-execution monitor.",
    note="Trusted: the reference map; the state key is validated as a bisimulation on every merge. Map's behaviour on callback error (earlier entries stay updated) is taken from the generated code's documented contract.",
    design="4/C19")
 CHECKS["C10"] = dict(
@@ -130,6 +130,13 @@ CHECKS["C12"] = dict(
    text="58 closed scenarios (first use of an uncompiled shared schema by 2 threads for every pair of 7 operations and by 3 threads, 2 threads x 2 operations, 3 threads on a compiled schema, two roots sharing an added type, shared validation next to a private compile+Example, enum/regex first use) are executed under a cooperative scheduler injected into the library by a build overlay; ALL interleavings with <= 2 preemptions (light 2-thread scenarios; 1 for scenarios containing a whole compilation or 3 threads; thorough +1) and ALL pool-answer deviations <= 2 are explored; in every execution every call must return its sequential result, every Once body must run once, no deadlock/livelock may occur and the race detector (which sees no happens-before edge from the scheduler's norace hand-off) must stay silent.",
    note="Trusted: the shim scheduler (replay of a schedule is checked for divergence), the Go race detector. 2-3 goroutines, bounded preemptions. Known finding: roots sharing an added type that uses allOf corrupt it when compiled concurrently.",
    design="4/C12")
+
+CHECKS["C11"] = dict(
+   category="model_checking", engine="A/D exhaustive operation histories on live objects + environment-choice exploration (pool answers, map iteration orders) through the build overlay",
+   technique="exhaustive enumeration of all operation histories up to depth 3/4 over a pool of live objects against fresh-object results with returned-value snapshots; exhaustive single (thorough: double) deviations of every sync.Pool answer and of every dynamic range-over-map order",
+   text="All histories of <= 3 (thorough 4) operations from a 41-operation alphabet over live Schema/Document/Enum/Regex objects (plus 12-fold repetitions and round-robins): every result must equal the fresh-object result and every value handed out must be unchanged at the end; for histories <= 2 every pool answer is additionally deviated (fresh / oldest object). The library is built through an overlay that rewrites every range-over-map into iteration over an explicitly ordered key list: for 1200 scenarios every single (thorough: pair of) dynamic iteration order deviation (descending, rotations) must leave all public results unchanged; static sites never reached with two keys are reported as uncovered.",
+   note="Trusted: the overlay rewrite (sound: every produced order is a legal Go order). Message text is not compared. Consumed Document objects are not re-validated.",
+   design="4/C11")
 
 NOT_YET = {
 }
